@@ -21,6 +21,11 @@ def features(case, run, val):
 def case_gen(rng, k):
     case = (gen.gen_nested_case(rng) if k % 8 == 7 else gen.gen_loop_case(rng) if k % 4 == 2 else gen.gen_queue_case(rng) if k % 4 == 1
             else gen.gen_parallel_case(rng, clean=False) if k % 8 == 3 else gen.gen_case(rng, groups=True))
+    if k % 8 in (4, 5):
+        # self-steps announced far ahead and then, at a triggered step in between, an earlier one (non-monotone announcements)
+        for b in case['beh']:
+            if b.get('type') in ('hybrid', 'event-based') and 'self_steps' in b:
+                b['self_steps'] = {str(tt): tt + rng.choice([1, 2, 3, 4, 5]) for tt in range(case['until']) if rng.random() < 0.8}
     if k % 4 in (0, 1):
         # outputs whose value is None (the key is present): such an output demands a step of a triggered destination like any other
         for b in case['beh']:
